@@ -4,7 +4,7 @@ import common, zoo as zoolib, filelevel, workloads, iocommon
 from common import Pair, proof_stage, rebuild_tools, build_pqh, build_zoo, Lock, TRUSTED_BASE
 
 MODULE = "PQ.Props.C16"
-THEOREMS = ["PQ.C16.at_zero_one_header", "PQ.C16.meta_is_footer"]
+THEOREMS = ["PQ.C16." + t for t in ("at_zero_one_header", "meta_is_footer", "readMetaData_runWriter", "readMetaData_eq_parseFile", "pageHeadersAt_chunk", "pageHeadersAt_chunk_cover", "pageHeadersAt_chunk_zero", "pageHeadersAt_runWriter", "pageHeaders_runWriter", "fileHdrs_facts", "introspection_runWriter")]
 
 
 def run(chk):
